@@ -17,6 +17,16 @@ using namespace adv;
 
 struct HonestS { int src; bool up = false, raw = false; int user = -1; Bytes tun_ip; uint64_t t_last = 0; size_t absorbed = 0; int state = 0; };
 
+static void honest_absorb_c05(Env &E, HonestS &h)
+{
+	scn::ScriptClient &sc = E.S(h.src).sc;
+	for (; h.absorbed < sc.inbox.size(); h.absorbed++) {
+		const scn::Rx &rx = sc.inbox[h.absorbed];
+		char k = rx.is_raw || rx.ans.qname.empty() ? 0 : (char)tolower((unsigned char)rx.ans.qname[0]);
+		if (k && strchr("p0123456789abcdef", k)) sc.absorb(rx);
+	}
+}
+
 static CaseResult run_case(Tape &t)
 {
 	CaseResult r;
@@ -61,7 +71,8 @@ static CaseResult run_case(Tape &t)
 		int upb = UPB[t.pick({3, 1, 1, 1, 1})];
 		char de = t.chance(1, 2) ? 0 : "TSUVR"[t.below(5)];
 		bool lazy = t.chance(1, 2);
-		int F = t.chance(1, 2) ? 0 : t.range(10, 300);
+		static const int BIGF[] = {1200, 4093, 4094, 4095, 4096, 65535};
+		int F = (int)t.pick({4, 4, 2}) == 0 ? 0 : (t.chance(2, 3) ? t.range(10, 300) : BIGF[t.below(6)]);   // sessions may ask for any fragment size, also far beyond what an answer carries
 		h.up = sc.handshake(lazy, F, de, upb);
 		h.user = sc.userid; h.t_last = sim::W.now;
 		if (h.up) { unsigned a = 0, b = 0, cc = 0, d = 0; sscanf(sc.tun_ip_text.c_str(), "%u.%u.%u.%u", &a, &b, &cc, &d); h.tun_ip = Bytes{(uint8_t)a, (uint8_t)b, (uint8_t)cc, (uint8_t)d}; E.slot[h.user & 31].tun_ip = h.tun_ip; }
@@ -121,9 +132,14 @@ static CaseResult run_case(Tape &t)
 			sc.send_raw(refproto::raw_frame(cmd, u, body)); what = fmt("raw frame cmd=%d user=%d %zuB", cmd, u, body.size()); ms.hit("rawframe"); break;
 		}
 		case 4: {   // packet on the tun device: any length, any destination
-			size_t n; switch (t.pick({3, 3, 2, 1})) { case 0: n = t.below(24); break; case 1: n = 24 + t.below(100); break; case 2: n = t.below(3000); break; default: n = 60000 + t.below(5000); break; }
+			size_t n; switch (t.pick({3, 3, 2, 2, 1})) { case 0: n = t.below(24); break; case 1: n = 24 + t.below(100); break; case 2: n = t.below(3000); break; case 3: n = 3000 + t.below(7000); break; default: n = 60000 + t.below(5000); break; }
 			Bytes pkt = t.bytes_of(n);
-			if (pkt.size() >= 24 && t.chance(2, 3)) { Bytes d; int which = (int)t.below(4); if (which == 0 && !hs.empty() && hs[t.below((uint32_t)hs.size())].up) d = hs[t.below((uint32_t)hs.size())].tun_ip; if (d.size() != 4) d = E.s->client_tun_ip((int)t.below(16)); memcpy(pkt.data() + 20, d.data(), 4); }
+			if (pkt.size() >= 24 && t.chance(3, 4)) {   // destination: a session's tunnel address (2 in 3) or any slot address
+				Bytes d;
+				if (!hs.empty() && t.chance(2, 3)) { const HonestS &o = hs[t.below((uint32_t)hs.size())]; if (o.up) d = o.tun_ip; }
+				if (d.size() != 4) d = E.s->client_tun_ip((int)t.below(16));
+				memcpy(pkt.data() + 20, d.data(), 4);
+			}
 			sim::W.offer_tun(E.s->srv, pkt); what = fmt("tun packet %zuB", n); ms.hit(n < 24 ? "tun:shorter-than-ip-header" : "tun:packet"); break;
 		}
 		case 5: { static const uint64_t DT[] = {1000, 20000, 1000000, 5000000, 10000000}; uint64_t dt = DT[t.below(5)]; if (advanced + dt > 40000000ull) dt = 1000; advanced += dt; sim::W.run_for(dt); what = fmt("advance %.3fs", dt / 1e6); break; }
@@ -144,6 +160,10 @@ static CaseResult run_case(Tape &t)
 		if (getenv("VERIF_TRACE")) fprintf(stderr, "%.6f %s\n", sim::W.now / 1e6, what.c_str());
 	}
 	sim::W.run_for(30000);
+	// every session (the attacker's own ones too) fetches what the server has queued for it: the downstream path runs
+	// with whatever the hostile steps left behind (oversized packets, odd fragment sizes)
+	for (int round = 0; round < 3 && E.s->srv->state != sim::ST_EXITED && !sim::W.livelock; round++)
+		for (auto &h : hs) if (h.up && !h.raw) { E.S(h.src).sc.send_ping(); sim::W.run_for(3000); honest_absorb_c05(E, h); }
 	// ---- oracle (i)
 	bool dead = E.s->srv->state == sim::ST_EXITED;
 	r.render = c.describe() + fmt(" -b=%d residue=%d | ", c.forward_port, sim::W.residue_mode) + prelude + fmt("| %d hostile steps, server answered hostile sources %llu times", nsteps, (unsigned long long)hostile_answers) + steps;
